@@ -408,7 +408,10 @@ BaseKillPlugin::BaseKillPlugin() {
    * Initializes kKillsKey in stats for immediate reporting,
    * rather than waiting for first occurrence
    */
-  Oomd::setStat(CoreStats::kKillsKey, 0);
+  // (incrementing by 0 creates the key when it is missing and leaves kills
+  // already counted alone: plugins are also constructed at run time, for drop
+  // ins and for the per-cgroup instances of a ruleset-level cgroup)
+  Oomd::incrementStat(CoreStats::kKillsKey, 0);
 }
 
 int BaseKillPlugin::getAndTryToKillPids(const CgroupContext& target) {
